@@ -101,6 +101,7 @@ fn ord_char(o: Ordering) -> char {
 }
 
 pub fn check_c04_pair(a: &Version, b: &Version, sink: &Sink) {
+        crate::report::beat();
     let key = format!("a={}|b={}", vtext_full(a), vtext_full(b));
     let case = || json!({"engine":"D","kind":"c04-pair","a":vjson(a),"b":vjson(b)});
     let want = rcmp(a, b);
@@ -148,6 +149,7 @@ pub fn vfrom(j: &Value) -> Version {
 }
 
 fn check_list(list: &[&Version], sink: &Sink) {
+        crate::report::beat();
     let owned: Vec<Version> = list.iter().map(|v| (*v).clone()).collect();
     let key = format!("list=[{}]", owned.iter().map(vtext_full).collect::<Vec<_>>().join(","));
     let case = || json!({"engine":"D","kind":"c04-list","list":owned.iter().map(vjson).collect::<Vec<_>>()});
@@ -480,6 +482,7 @@ fn diff_code(s: Option<&str>) -> u8 {
 }
 
 pub fn check_c16_pair(a: &Version, b: &Version, node: Option<u8>, sink: &Sink) {
+        crate::report::beat();
     let key = format!("a={}|b={}", vtext_full(a), vtext_full(b));
     let case = || json!({"engine":"D","kind":"c16-pair","a":vjson(a),"b":vjson(b)});
     let got = match guarded(|| a.diff(b)) {
@@ -631,6 +634,7 @@ pub const C14_RANGES: [&str; 46] = [
 ];
 
 pub fn check_c14(range_text: &str, r: &Range, list: &[Version], sink: &Sink) {
+        crate::report::beat();
     let key = format!("range={}|list=[{}]", range_text, list.iter().map(vtext_full).collect::<Vec<_>>().join(","));
     let case = || json!({"engine":"D","kind":"c14","range":range_text,"list":list.iter().map(vjson).collect::<Vec<_>>()});
     let sat: Vec<bool> = list.iter().map(|v| r.satisfies(v)).collect();
@@ -776,6 +780,7 @@ macro_rules! chk4 {
 }
 
 fn against_parse(v: &Version, text: &str, clause: &str, ty: &str, sink: &Sink) {
+        crate::report::beat();
     let case = || json!({"engine":"D","kind":"c18-text","type":ty,"text":text});
     // a different history: the same version with build metadata is parsed and printed first (the
     // answer for `text` must not depend on earlier calls)
